@@ -48,6 +48,28 @@ CHECKS = [
   "note": COMMON_NOTE + " Assumed: heapq.heappush/heappop/heapify contracts; sequence membership/remove-first lemmas over the heap array; "
           "events are immutable while listed; valid events have non-NaN times of one time class (float model; Duration/int times embed).",
   "technique": "deductive verification: heap representation invariant against an abstract set view, inductive min-lemma, dependency contracts for heapq; z3 + cvc5"},
+ {"property_id": "C12",
+  "text": "Every method of MersenneTwister is verified against a contract over the abstract generator state S of its private random.Random "
+          "(seed: S=Seed(k); each draw: result is a fixed function of Out(S), S'=Next(S); save/restore: identity on S). Lemma programs over "
+          "these contracts prove: twin streams with equal state stay equal under every draw (one step; interleavings by induction), equal "
+          "seeds give equal states, reset replays, restore continues as after the save, operations on one stream leave another's state "
+          "untouched; next_float in [0,1), lo<=next_int<=hi for every lo<=hi (over the reals). Ownership of the generator object is a "
+          "frame scan over the AST.",
+  "design_ref": "DESIGN.md section 6 C12",
+  "note": COMMON_NOTE + " Assumed contract of random.Random (abstract state, Out in [0,1)). next_int range over the reals: float rounding "
+          "for ranges beyond 2^53 is not decided here.",
+  "technique": "deductive verification: contracts over an abstract RNG state + lemma programs (twin/reset/restore/independence) discharged by z3"},
+ {"property_id": "C13",
+  "text": "SimpleStreamUpdater.update_seed: postcondition seed' = original_seed + r*(1000037 + jhash(name)) with jhash the axiomatised "
+          "process-independent string hash computed by the verified loop in _hash_code; determinism-effect obligation (no process-varying "
+          "primitive such as hash(str)); rejected inputs (ill-typed, negative r) leave the stream untouched (strict frame). "
+          "StreamSeedUpdater.update_seed: listed stream gets table[name][r], r beyond the list / negative / ill-typed is refused without "
+          "changing the stream, unlisted stream is delegated to the fallback updater exactly once (no KeyError). update_seeds: loop "
+          "invariant gives every stream the seed determined by its own (name, original seed, r) - independent of listing order.",
+  "design_ref": "DESIGN.md section 6 C13",
+  "note": COMMON_NOTE + " Streams in one dict are distinct objects with their own generators; the fallback updater is an interface "
+          "contract (user supplied updaters are outside the closed world); effect catalogue of primitives is trusted.",
+  "technique": "deductive verification: functional postconditions + determinism effect check + loop invariant; z3 (strings) + cvc5"},
 ]
 _claimed = {c["property_id"] for c in CHECKS}
 NOT_APPLICABLE = [
